@@ -444,7 +444,9 @@ def _enumerate(rec, tier, seed, bound_out):
                         for d in variants:
                             inf2 = check_detector(rec, d)
                             rec.case(("det", str(spec), n, p, b, mdi, d["threshold_scale"], d.get("level"), "Xfit" in d), inf2["nt"], None)
-                            if spec["kind"] == "builtin" and "Xfit" not in d:
+                            # (a score that can be NEGATIVE -- the user-defined level cost -- makes a tuned threshold negative, so that the zero-padded
+                            # border positions are reported: that is the recorded finding KF1 of C04, not a reversal question)
+                            if spec["kind"] == "builtin" and "Xfit" not in d and not (spec.get("name") == "UserLevelCost" and d["threshold_scale"] is None):
                                 r = dict(d, check="reversal")
                                 rec.case(("rev", str(spec), n, p, b, mdi, d["threshold_scale"], d.get("level")), check_reversal(rec, r), None)
     tick("end")
